@@ -62,6 +62,9 @@ def run_plan(case):
             from . import tracefs
 
             tracefs.clear_flaky()
+        if case.get("may_reject"):
+            res["open"] = "rejected-ok"  # ... and so is accepting it: the format says nothing about what it should then read as
+            return res
         ex = oracle.expectations(b, files=tuple(case.get("files", ("VOL", "LED", "IMG"))))
         bad = oracle.check(proj, ex)
         res["n"] = len(ex)
